@@ -20,6 +20,12 @@ Decided (structural necessary conditions on the kernels of tensor / sptensor / k
           that is homogeneous of degree 1 in the operand's own values (data, vals, Kruskal weights, Tucker core), computed
           like a physical dimension through products, sums, re-arrangements and calls of sibling kernels; a different
           degree means the weights / core were applied twice or dropped, a MIXED one that a constant was added
+  AGG     a sparse kernel that contracts modes (ttv, collapse) projects the stored subscripts onto the remaining modes, where
+          several entries then share a subscript: such a projection reaches a sparse result only through the aggregating
+          constructor / accumarray, never through the plain constructor (which keeps duplicates; the last one wins on conversion)
+  MOVE    the dense ttv kernel moves the contracted modes to the end of the DATA by the same permutation by which it reorders its
+          SHAPE bookkeeping; the data transposition may be skipped only under a test whose failure means there is at most one
+          mode (a permutation of <= 1 modes is the identity)
   SC      dense look-ups by subscript arrays are normalised before use (single stored entry)
 Not decided: any kernel's numbers; both sides of the 50 % densification switch; empty / scalar results.
 """
@@ -349,11 +355,92 @@ def wdeg(prog: Program, res: Result) -> None:
                         f"({'the ' + field + ' are never applied' if d == 0 else 'they are applied more than once'})")
 
 
+def agg_contract(prog: Program, res: Result) -> None:
+    for short in ("sptensor.sptensor.ttv", "sptensor.sptensor.collapse"):
+        fi = prog.func(short)
+        defs: Dict[str, List[ast.expr]] = {}
+        for n in ast.walk(fi.node):
+            if isinstance(n, ast.Assign) and len(n.targets) == 1 and isinstance(n.targets[0], ast.Name):
+                defs.setdefault(n.targets[0].id, []).append(n.value)
+
+        def is_projection(e: ast.expr, depth=0) -> bool:
+            """e is (derived from) <subscripts>[:, remaining-modes selector]"""
+            if depth > 4:
+                return False
+            if isinstance(e, ast.Name):
+                return any(is_projection(d, depth + 1) for d in defs.get(e.id, []))
+            if isinstance(e, ast.Call) and isinstance(e.func, ast.Attribute) and e.func.attr in ("astype", "copy"):
+                return is_projection(e.func.value, depth + 1)
+            if isinstance(e, ast.Subscript) and isinstance(e.slice, ast.Tuple) and len(e.slice.elts) == 2 and isinstance(e.slice.elts[0], ast.Slice):
+                sel = e.slice.elts[1]
+                base = ast.unparse(e.value)
+                if ("subs" in base) and isinstance(sel, ast.Name) and "rem" in sel.id.lower():
+                    return True
+                if isinstance(sel, ast.Name):
+                    for d in defs.get(sel.id, []):
+                        if isinstance(d, ast.Call) and (dotted(d.func) or "").split(".")[-1] == "setdiff1d" and "subs" in base:
+                            return True
+            return False
+        sites = [c for c in ast.walk(fi.node) if isinstance(c, ast.Call) and (dotted(c.func) or "").split(".")[-1] in ("sptensor", "from_aggregator")
+                 and c.args]
+        k = 0
+        for c in sites:
+            if not is_projection(c.args[0]):
+                continue
+            k += 1
+            kind = (dotted(c.func) or "").split(".")[-1]
+            desc = f"subscripts projected onto the remaining modes reach the result through the aggregating constructor (site #{k})"
+            if kind == "from_aggregator":
+                res.ok("AGG", short, desc, prog.loc(fi, c))
+            else:
+                res.bad("AGG", short, desc, prog.loc(fi, c),
+                        f"`{ast.unparse(c)[:70]}` hands the projected subscripts to the plain constructor: entries that differ only in a contracted "
+                        "mode keep separate rows with the same subscript, and only the last one survives conversion / look-up")
+        if k == 0:
+            res.undecided("AGG", short, "subscripts projected onto the remaining modes reach the result through the aggregating constructor",
+                          prog.loc(fi), "no projected-subscript constructor site")
+
+
+def move_sync(prog: Program, res: Result) -> None:
+    fi = prog.func("tensor.tensor.ttv")
+    desc = "data and shape bookkeeping are reordered by the same permutation; the transposition is skipped only for <= 1 mode"
+    tr = [c for c in ast.walk(fi.node) if isinstance(c, ast.Call) and (dotted(c.func) or "").split(".")[-1] == "transpose" and len(c.args) >= 2]
+    shp = [n for n in ast.walk(fi.node) if isinstance(n, ast.Subscript) and "shape" in ast.unparse(n.value) and isinstance(n.slice, ast.Call)]
+    if not tr or not shp:
+        res.undecided("MOVE", fi.short, desc, prog.loc(fi), "transpose / permuted shape not found")
+        return
+    pt, ps_ = ast.unparse(tr[0].args[1]).replace(" ", ""), ast.unparse(shp[0].slice).replace(" ", "")
+    if pt != ps_:
+        res.bad("MOVE", fi.short, desc, prog.loc(fi, tr[0]), f"data transposed by `{pt}` but shape reordered by `{ps_}`")
+        return
+    parents = {}
+    for x in ast.walk(fi.node):
+        for c in ast.iter_child_nodes(x):
+            parents[id(c)] = x
+    cur, tests = tr[0], []
+    while id(cur) in parents:
+        par = parents[id(cur)]
+        if isinstance(par, ast.If) and any(cur is b or any(cur is y for y in ast.walk(b)) for b in par.body):
+            tests.append(par.test)
+        cur = par
+    bad = None
+    for t in tests:
+        txt = ast.unparse(t).replace(" ", "")
+        if txt not in ("self.ndims>1", "1<self.ndims", "self.ndims>=2", "self.ndims!=1", "len(self.shape)>1", "n>1"):
+            bad = t
+    if bad is not None:
+        res.bad("MOVE", fi.short, desc, prog.loc(fi, bad),
+                f"the data is transposed only when `{ast.unparse(bad)[:70]}` while the shape bookkeeping `{ps_}` is applied always: when the test fails "
+                "for a tensor with several modes the later reshapes contract the wrong axes")
+    else:
+        res.ok("MOVE", fi.short, desc, prog.loc(fi, tr[0]), f"permutation {pt}; guards {[ast.unparse(t) for t in tests]}")
+
+
 def check(prog: Program, res: Result, tier: str) -> None:
     res.explanation = __doc__.split("\n\n", 1)[1]
     res.assumptions = ["tt_dimscheck contract (C17): dims sorted, vidx[j] = position of the multiplicand that belongs to dims[j]",
                        "khatrirao(reverse=True) over an ascending factor list matches the F-order unfolding (C17 KRAX)"]
-    res.floors = {"VIDX": 6, "KR": 9, "EO-1": 21, "WEIGHTS": 6, "FOLD": 4, "REP": 18, "DTYPE": 1, "WDEG": 30}
+    res.floors = {"VIDX": 6, "KR": 9, "EO-1": 21, "WEIGHTS": 6, "FOLD": 4, "REP": 18, "DTYPE": 1, "WDEG": 30, "AGG": 2, "MOVE": 1}
     for f in DENSE_KERNELS + SPARSE_KERNELS:
         prog.func(f)
     vidx(prog, res)
@@ -362,6 +449,8 @@ def check(prog: Program, res: Result, tier: str) -> None:
     weights_rule(prog, res)
     fold(prog, res)
     wdeg(prog, res)
+    agg_contract(prog, res)
+    move_sync(prog, res)
     dtype_rule(prog, res)
     from ..report import Result as _R
     probe = _R("C02")
